@@ -58,7 +58,7 @@ def gen_dialog(rnd):
     kind = rnd.choice(KINDS)
     msg = gen_msg(rnd)
     if kind in ("password", "help") and rnd.random() < 0.2: msg = None
-    return {"kind": kind, "msg": msg, "w": gen_width(rnd)}
+    return {"kind": kind, "msg": msg, "w": gen_width(rnd), "refreshes": rnd.choice([1, 1, 2, 3])}
 
 
 class _StubHandler:
@@ -90,7 +90,7 @@ def run_real_dialog(c, tmpdir):
     elif kind == "getpassinput": d = aw.GetPasswordInputScreen(msg)
     else: raise SystemExit(kind)
     out = {"title": d.title}
-    d.refresh()
+    for _ in range(c.get("refreshes", 1)): d.refresh()          # (a dialog that is shown again is refreshed again: its window is built anew each time)
     try:
         d.window.render(w)
         out["lines"] = list(d.window.get_lines())
@@ -133,9 +133,13 @@ def gen_queue(rnd):
 
 
 class _Src:
-    """a signal source: an arbitrary hashable object (every other one is falsy: an empty container-like object)"""
+    """a signal source: an arbitrary hashable object (every other one is falsy: an empty container-like object; every third one is identified by its value -
+    equal objects are the same source, and a fresh equal object is handed over at every use)"""
     def __init__(self, k): self.k = k
     def __len__(self): return 0 if self.k % 2 else 1
+class _ValSrc(_Src):
+    def __eq__(self, o): return isinstance(o, _ValSrc) and o.k == self.k
+    def __hash__(self): return hash(("valsrc", self.k))
 
 
 def run_real_queue(c):
@@ -150,7 +154,7 @@ def run_real_queue(c):
     q = EventQueue()
     q._order_counter = c["start"]
     srcs = {}
-    def src(k): return srcs.setdefault(k, _Src(k))
+    def src(k): return _ValSrc(k) if k % 3 == 2 else srcs.setdefault(k, _Src(k))
     n = 0
     out = []
     for o in c["ops"]:
